@@ -93,6 +93,42 @@ theorem handleCORSPreflight_eq (icfg : ICfg) (h reqHdrs : HdrMap) (origin acrm :
     cases h4 : Serve.processACRH (modelDec icfg) icfg b3 reqHdrs debug <;> simp only [] <;> (try (cases debug <;> simp; done))
     cases icfg.acma.isEmpty <;> simp)
 
+/-- A preflight never reaches the wrapped handler (in the model). -/
+theorem handleCORSPreflight_next (dec : Dec) (icfg : ICfg) (h reqHdrs : HdrMap) (origin acrm : Bytes) (debug : Bool) :
+    (Serve.handleCORSPreflight dec icfg h reqHdrs origin acrm debug).next = false := by
+  unfold Serve.handleCORSPreflight
+  cases Serve.preflightSteps dec icfg reqHdrs origin acrm debug <;> simp only [] <;> (try split) <;> rfl
+
+/-- The closure returned by `Wrap`, after its passthrough test, as translated = `Serve.serve`: the dispatch on the first
+`Origin` value, the method and the first `Access-Control-Request-Method` value, which handler runs, and whether the wrapped
+handler is called afterwards. -/
+theorem serveClosure_eq (icfg : ICfg) (debug : Bool) (r : Req) (pre : HdrMap) :
+    Gen.GoSrc.serveClosure icfg debug r pre = Serve.serve icfg debug r pre := by
+  unfold Gen.GoSrc.serveClosure Serve.serve Serve.serveDec GoRt.first HdrMap.first
+  cases ho : r.hdrs Facts.headers_Origin with
+  | none => simp [handleNonCORS_eq]
+  | some vo =>
+    cases vo with
+    | nil => simp [handleNonCORS_eq]
+    | cons origin restO =>
+      cases hm : r.hdrs Facts.headers_ACRM with
+      | none => simp [handleCORSActual_eq]
+      | some vm =>
+        cases vm with
+        | nil => simp [handleCORSActual_eq]
+        | cons acrm restM =>
+          cases hopt : (r.method == Serve.OPTIONS) with
+          | false => simp [handleCORSActual_eq]
+          | true =>
+            simp only [Bool.true_and, Bool.not_true, Bool.false_eq_true, if_false, if_true, handleCORSPreflight_eq]
+            have hn := handleCORSPreflight_next (modelDec icfg) icfg pre r.hdrs origin acrm debug
+            cases hr : Serve.handleCORSPreflight (modelDec icfg) icfg pre r.hdrs origin acrm debug with
+            | mk hd st nx =>
+              rw [hr] at hn
+              simp only [] at hn
+              subst hn
+              rfl
+
 /-- The four decision steps of the preflight pipeline, as translated from the working tree, are the modelled ones. -/
 theorem pipeline_eq (icfg : ICfg) (buf : Buf) (reqHdrs : HdrMap) (origin acrm : Bytes) (debug : Bool) :
     Gen.GoSrc.processOriginForPreflight icfg buf origin [origin] = GoRt.result buf (Serve.processOriginForPreflight (modelDec icfg) icfg buf origin) ∧
